@@ -286,9 +286,14 @@ func (p *program) loadProgram() error {
 		log.Fatalf("load packages: %v", err)
 	}
 
+	goVersion, err := linter.ParseGoVersion(p.goVersion)
+	if err != nil {
+		return fmt.Errorf("-go: %w", err)
+	}
+
 	p.loadedPackages = pkgs
 	p.ctx = linter.NewContext(p.fset, sizes)
-	p.ctx.SetGoVersion(p.goVersion)
+	p.ctx.GoVersion = goVersion
 
 	return nil
 }
